@@ -146,7 +146,7 @@ inductive Ev
   | update (chain : Nat)                              -- lzma_filters_update
   | reinit (c : Cfg) | lzmaEnd                        -- lzma_stream_encoder_mt on the same handle / lzma_end
   | mExitOne (i : Nat) | mExitIdle | mJoin
-  | wTop (i : Nat) | wEnc (i : Nat) (full : Bool) (newOut : Nat) | wEncErr (i : Nat) (r : Ret) | wFb (i : Nat)
+  | wTop (i : Nat) (o0 : Nat) | wEnc (i : Nat) (full : Bool) (newOut : Nat) | wEncErr (i : Nat) (r : Ret) | wFb (i : Nat)
   | wMarkIdle (i : Nat) | wTail (i : Nat) | wSpurious (i : Nat) | wExitIdle
   deriving Repr, Inhabited
 
@@ -360,8 +360,9 @@ def WCtx.canRun (w : WCtx) : Bool := !w.asleep || w.woken
 def sleep (w : WCtx) : WCtx := { w with asleep := true, woken := false }
 def awake (w : WCtx) : WCtx := { w with asleep := false, woken := false }
 
-/-- The wait loop at the top of worker_start(). -/
-def wTop (s : St) (i : Nat) : Option St :=
+/-- The wait loop at the top of worker_start(); on THR_RUN/THR_FINISH also the prologue of worker_encode() (Block Header size
+    `o0` reserved at the start of the output buffer, Block encoder initialised). -/
+def wTop (P : Params) (s : St) (i : Nat) (o0 : Nat) : Option St :=
   match s.outq[i]? with
   | none => none
   | some e =>
@@ -373,7 +374,7 @@ def wTop (s : St) (i : Nat) : Option St :=
         | .stop => some (setW s i e (some (sleep { w with state := .idle })))       -- STOP -> IDLE, signal, wait again
         | .idle => some (setW s i e (some (sleep w)))
         | .exit => some (leave s i e)
-        | _ => some (setW s i e (some { awake w with pc := .enc, lIn := 0, inPos := 0, outPos := 0 }))
+        | _ => if o0 ≤ P.alloc then some (setW s i e (some { awake w with pc := .enc, lIn := 0, inPos := 0, outPos := o0 })) else none
       else none
 
 /-- One iteration of the loop of worker_encode(): the critical section (progress, wait for input, snapshot) and the call of
@@ -495,7 +496,7 @@ def step (P : Params) (s : St) : Ev → Option St
   | .mExitOne i => mExitOne s i
   | .mExitIdle => mExitIdle s
   | .mJoin => mJoin P s
-  | .wTop i => wTop s i
+  | .wTop i o0 => wTop P s i o0
   | .wEnc i full newOut => wEnc P s i full newOut
   | .wEncErr i r => wEncErr s i r
   | .wFb i => wFb P s i
